@@ -11,8 +11,8 @@ func zzC07HasCycle(spec string) {
 	zzReach("end")
 }
 
-func zzC07_HasCycle_N3() { zzC07HasCycle("3;Tasks=0;Meta=0;RDeps=0;Tombstones=0;constkeys=Deps") }
-func zzC07_HasCycle_N4() { zzC07HasCycle("4;Tasks=0;Meta=0;RDeps=0;Tombstones=0;constkeys=Deps") }
+func zzC07_HasCycle_N3() { zzC07HasCycle("3;Meta=0;Results=0;RDeps=0;Tombstones=0;constkeys=Tasks,Deps") }
+func zzC07_HasCycle_N4() { zzC07HasCycle("4;Meta=0;Results=0;RDeps=0;Tombstones=0;constkeys=Tasks,Deps") }
 
 // One `sequence A B` / `sequence rm A B` edge, through the public RunSequence.
 func zzC07_LinkStep() {
